@@ -202,6 +202,10 @@ def run_boundaries(ctx):
 def run_all_classes(ctx):
     for cf in dg.ALL_CF:
         for M, L in ((7, 3), (16, 20), (16, 0), (100, 95), (38, 64)):
+            if (cf + M) % 2:
+                # this thread has just seen an encoding error (reported to and handled by the application)
+                if dg.provoke_encode_failure():
+                    ctx.label('after-failed-encode')
             spec = {'cf': cf, 'fields': default_fields(cf, 1), 'data': dg.patterned(L) if L else None}
             try:
                 nd = check_case(spec, M, 1 + 2 * (cf % 100))
